@@ -146,68 +146,78 @@ def _container(ctx) -> None:
            fp.node, message="; ".join(problems))
 
 
+def _fold_problems(it, L, acc_name, src_ok, hash_callees) -> List[str]:
+    """Is loop L an order-sensitive polynomial fold  acc = (acc * B + H(x)) % P  of the loop's elements, from a constant?"""
+    from ..symx import show
+    lp = it.loops[L]
+    probs = []
+    if not src_ok(lp.iter):
+        probs.append(f"the fold ranges over `{show(lp.iter, it)[:50]}`, not over all elements in order")
+    init, nxt = lp.carried.get(acc_name, (None, None))
+    if init is None or init[0] != "const":
+        probs.append("accumulator does not start from a constant")
+    lv = ("loopvar", acc_name, L)
+    x = ("elem", lp.iter, L)
+    ok = False
+    if nxt is not None and nxt[0] == "bin" and nxt[1] == "Mod" and nxt[2][0] == "bin" and nxt[2][1] == "Add":
+        for mul, h in ((nxt[2][2], nxt[2][3]), (nxt[2][3], nxt[2][2])):
+            if mul[0] == "bin" and mul[1] == "Mult" and lv in (mul[2], mul[3]) and lv not in (h,):
+                ok = True
+                if not (h[0] == "call" and h[1] in hash_callees and h[2] == (x,) and not h[3]):
+                    probs.append(f"the folded term is `{show(h, it)[:50]}`, not _hash_element(<element>)")
+    if not ok:
+        probs.append(f"accumulator update `{show(nxt, it)[:60] if nxt is not None else '?'}` is not (acc * B + h) % P: element order would "
+                     f"not matter")
+    if lp.breaks or lp.returns:
+        probs.append("the fold can stop before the last element")
+    return probs
+
+
 def _content_only(ctx) -> None:
+    from ..sites2 import interp_of
+    from ..symx import show
     prog = ctx.prog
     f = prog.func("vector.Vector._compute_fingerprint_full")
+    it = interp_of(prog, f)
+    S = ("param", f.params[0])
+    stor = ("attr", S, "_underlying")
+    hash_callees = (("attr", S, "_hash_element"), ("attr", ("name", "Vector"), "_hash_element"))
     problems = []
-    loops = [s for s in walk_stmts(f.body) if isinstance(s, ast.For)]
-    rets = [s for s in walk_stmts(f.body) if isinstance(s, ast.Return)]
-    if len(loops) != 1 or len(rets) != 1 or not isinstance(rets[0].value, ast.Name):
-        problems.append("expected one fold loop and `return <accumulator>`")
+    rets = [e for e in it.events if e.kind == "return" and e.depth == 0]
+    if len(rets) != 1 or rets[0].term[0] != "after":
+        problems.append(f"expected one fold loop and `return <accumulator>` (returns `{show(rets[0].term, it)[:50] if rets else '?'}`)")
     else:
-        lp = loops[0]
-        acc = rets[0].value.id
-        if attr_chain(lp.iter) != ["self", "_underlying"] or not isinstance(lp.target, ast.Name):
-            problems.append(f"the fold ranges over `{short(lp.iter)}`, not over all elements of self._underlying in order")
-        else:
-            x = lp.target.id
-            d = Defs(f)
-            upd = [s for s in lp.body if isinstance(s, ast.Assign) and isinstance(s.targets[0], ast.Name) and s.targets[0].id == acc]
-            hdefs = [s for s in lp.body if isinstance(s, ast.Assign) and isinstance(s.targets[0], ast.Name) and s.targets[0].id != acc]
-            if len(upd) != 1:
-                problems.append("accumulator update not recognised")
-            else:
-                e = upd[0].value
-                # (acc * B + h) % P
-                okshape = isinstance(e, ast.BinOp) and isinstance(e.op, ast.Mod) and isinstance(e.left, ast.BinOp) \
-                    and isinstance(e.left.op, ast.Add)
-                if okshape:
-                    mul, h = e.left.left, e.left.right
-                    if not (isinstance(mul, ast.BinOp) and isinstance(mul.op, ast.Mult)
-                            and any(isinstance(t, ast.Name) and t.id == acc for t in (mul.left, mul.right))):
-                        mul, h = e.left.right, e.left.left
-                    okshape = isinstance(mul, ast.BinOp) and isinstance(mul.op, ast.Mult) \
-                        and any(isinstance(t, ast.Name) and t.id == acc for t in (mul.left, mul.right))
-                    if okshape:
-                        hv = d.resolve(h) if isinstance(h, ast.Name) else h
-                        if isinstance(h, ast.Name):
-                            hv = next((s.value for s in hdefs if s.targets[0].id == h.id), hv)
-                        if not (isinstance(hv, ast.Call) and attr_chain(hv.func) in (["self", "_hash_element"], ["Vector", "_hash_element"])
-                                and len(hv.args) == 1 and isinstance(hv.args[0], ast.Name) and hv.args[0].id == x):
-                            problems.append(f"the folded term is `{short(hv)}`, not _hash_element(<element>)")
-                if not okshape:
-                    problems.append(f"accumulator update `{short(upd[0])}` is not (acc * B + h) % P: element order would not matter")
-        init = [s for s in f.body if isinstance(s, ast.Assign) and isinstance(s.targets[0], ast.Name) and s.targets[0].id == acc]
-        if not (init and isinstance(init[0].value, ast.Constant)):
-            problems.append("accumulator does not start from a constant")
+        _, acc, L = rets[0].term
+        problems += _fold_problems(it, L, acc, lambda src: src == stor, hash_callees)
     problems += _forbidden(f)
+    for e in it.events:
+        if e.depth > 0 and e.kind == "call" and e.term[1][0] in ("name", "attr"):
+            nm = e.term[1][1] if e.term[1][0] == "name" else e.term[1][2]
+            if nm in FORBIDDEN_SOURCES:
+                problems.append(f"`{show(e.term, it)[:40]}` flows into the fingerprint (identity/time/randomness is not content)")
     ctx.ob("c.content-only", f, "fold", not problems, "order-sensitive fold of _hash_element over all elements", f.node,
            message="; ".join(problems))
     g = prog.func("vector.Vector._hash_element")
+    gi = interp_of(prog, g)
     p2 = _forbidden(g)
-    x = g.params[0]
-    dg = Defs(g)
-    for r in [s for s in walk_stmts(g.body) if isinstance(s, ast.Return)]:
-        v = r.value
-        ok_form = (isinstance(v, ast.Constant) and isinstance(v.value, int)) \
-            or (isinstance(v, ast.Call) and short(v.func) == "hash" and len(v.args) == 1) \
-            or (isinstance(v, ast.Call) and short(v.func) == "int" and len(v.args) == 1 and short(v.args[0]).endswith(".fingerprint()")) \
-            or (isinstance(v, ast.Call) and short(v.func).endswith("_hash_element")) \
-            or (isinstance(v, ast.Name) and v.id in dg.assigns)
+    X = ("param", g.params[0])
+    gh = (("attr", ("name", "Vector"), "_hash_element"), ("name", "_hash_element"), ("attr", ("param", "cls"), "_hash_element"))
+    for e in [e for e in gi.events if e.kind == "return" and e.depth == 0]:
+        v = e.term
+        ok_form = (v[0] == "const" and isinstance(v[2], int)) \
+            or (v[0] == "call" and v[1] == ("name", "hash") and len(v[2]) == 1) \
+            or (v[0] == "call" and v[1] == ("name", "int") and len(v[2]) == 1 and v[2][0][0] == "call" and v[2][0][1][0] == "attr"
+                and v[2][0][1][2] == "fingerprint") \
+            or (v[0] == "call" and v[1] in gh)
+        if v[0] == "after":
+            fp = _fold_problems(gi, v[2], v[1], lambda src: src == X, gh)
+            ok_form = not fp
+            p2 += [f"nested fold: {m}" for m in fp]
+            if fp:
+                continue
         if not ok_form:
-            p2.append(f"`{short(r, 60)}` post-processes the element hash: a non-injective wrapper (abs, %, &, //) makes distinct values "
-                      f"that Python's hash() tells apart (5 / -5) indistinguishable")
-    # every return is a constant, hash(x-derived), x.fingerprint(), recursion on x-derived, or the local fold
+            p2.append(f"`return {show(v, gi)[:60]}` post-processes the element hash: a non-injective wrapper (abs, %, &, //) makes distinct "
+                      f"values that Python's hash() tells apart (5 / -5) indistinguishable")
     ctx.ob("c.content-only", g, "element-hash", not p2, "_hash_element reads only the element (and class constants)", g.node,
            message="; ".join(p2))
 
@@ -225,46 +235,42 @@ def _forbidden(f: FuncInfo) -> List[str]:
 
 
 def _memo(ctx) -> None:
+    from ..sites2 import standalone_interps
+    from ..symx import NONE as SNONE
+    from ..symx import flatten_conds, show, subterms
     prog = ctx.prog
     sites = []
-    for f in prog.functions.values():
-        if isinstance(f.node, ast.Lambda):
-            continue
-        for st in walk_stmts(f.body):
-            tg = st.targets if isinstance(st, ast.Assign) else [st.target] if isinstance(st, (ast.AugAssign, ast.AnnAssign)) else []
-            for t in tg:
-                if isinstance(t, ast.Attribute) and t.attr == "_fp":
-                    sites.append((f, st))
+    for q, it in standalone_interps(prog).items():
+        for e in it.events:
+            if e.kind == "store" and e.term[0] == "attr" and e.term[2] == "_fp":
+                sites.append((prog.functions.get(e.func) or prog.functions[q], it, e))
     if not sites:
         raise AnalysisError("no store to _fp found")
-    for f, st in sites:
-        val = getattr(st, "value", None)
-        is_none = isinstance(val, ast.Constant) and val.value is None
-        if isinstance(st, ast.AugAssign):
-            ctx.ob("d.memo-discipline", f, "fp-store", False, "", st,
-                   message=f"{f.qualname} patches the memo incrementally (`{short(st, 70)}`): the memo is no longer the full "
+    for f, it, e in sites:
+        val = e.value
+        obj = e.term[1]
+        if any(x == ("attr", obj, "_fp") for x in subterms(val)):
+            ctx.ob("d.memo-discipline", f, "fp-store", False, "", e.node,
+                   message=f"{f.qualname} patches the memo incrementally (`{show(val, it)[:70]}`): the memo is no longer the full "
                            f"recomputation over the current contents")
             continue
-        if is_none:
+        if val == SNONE:
             ctx.ob("d.memo-discipline", f, f"fp-store:None:{f.name}", f.name in ("__init__", "_invalidate_fp", "__setitem__", "_promote"),
-                   f"{f.qualname}: _fp <- None", st, message=f"{f.qualname} clears a memo outside the audited sites")
+                   f"{f.qualname}: _fp <- None", e.node, message=f"{f.qualname} clears a memo outside the audited sites")
             continue
         problems = []
         if f.qualname != "vector.Vector.fingerprint":
-            problems.append(f"{f.qualname} stores a computed value into _fp (`{short(val, 60)}`); only fingerprint() may, and "
+            problems.append(f"{f.qualname} stores a computed value into _fp (`{show(val, it)[:60]}`); only fingerprint() may, and "
                             f"only the full recomputation")
         else:
-            if not (isinstance(val, ast.Call) and attr_chain(val.func) == ["self", "_compute_fingerprint_full"]):
-                problems.append(f"fingerprint() memoises `{short(val, 60)}`, not the full recomputation")
-            cfg = cfg_of(f)
-            node = cfg.node_of(st)
-            guard = [t for t in cfg.nodes if t.kind == "test" and cfg.dominates(t, node) and short(t.ast) == "self._fp is None"]
-            if not guard:
+            if val != ("call", ("attr", obj, "_compute_fingerprint_full"), (), ()):
+                problems.append(f"fingerprint() memoises `{show(val, it)[:60]}`, not the full recomputation")
+            if (("cmp", "Is", ("attr", obj, "_fp"), SNONE), True) not in flatten_conds(e.conds):
                 problems.append("the memo is stored outside `if self._fp is None:`")
-            rets = [s for s in walk_stmts(f.body) if isinstance(s, ast.Return)]
-            if not all(short(r.value) == "self._fp" for r in rets):
+            rets = [r for r in it.events if r.kind == "return" and r.depth == 0]
+            if not all(r.term == ("attr", obj, "_fp") for r in rets) or it.falls_through:
                 problems.append("fingerprint() returns something other than the memo")
-        ctx.ob("d.memo-discipline", f, "fp-store:computed", not problems, f"{f.qualname}: _fp <- {short(val, 50)}", st,
+        ctx.ob("d.memo-discipline", f, "fp-store:computed", not problems, f"{f.qualname}: _fp <- {show(val, it)[:50]}", e.node,
                message="; ".join(problems))
 
 
